@@ -504,7 +504,9 @@ def run_framed(reqs, ints=(), per_request_timeout=90, probe=True):
                 get_response()
                 # an `interrupt` sent while idle interrupts the NEXT evaluation (documented): the
                 # probe may be that evaluation once.
-                for attempt in range(2):
+                # (and every tick of the GARDEN_VERIF_INTERRUPT_AT schedule not yet reached may hit a probe once)
+                n_sources = len(ints) + sum(1 for r in reqs if r["kind"] == "interrupt")
+                for attempt in range(2 + n_sources):
                     send(json.dumps({"method": "run", "input": "1 + 1", "id": 424242}))
                     got = get_response()
                     out["probe_ok"] = bool(got) and kind_of(got[0])[0] == "evaluate" and \
